@@ -2010,7 +2010,23 @@ def r1312(W, engs, rep):
             if fld not in lazy_fields or L.rec_of(an.inner[0].type if an.kind == 'MemberExpr' else None) != 'Node':
                 continue
             kf = S.vs.get(base + '->kind')
-            if kf is None:
+            if kf is None and '@' in base and not any(ch in base for ch in '-.[') and base.split('@', 1)[1] in e.param_idx and base not in e.assigned_params \
+                    and len(W.fn_unit.get(f, ())) == 1:
+                # a helper of the evaluators that leaves the dispatch on the node kind to its callers (eval_double -> eval_flonum_binary): the node has one of the
+                # kinds under which some caller hands it over
+                pi = e.param_idx[base.split('@', 1)[1]]
+                acc = None
+                for (un2, f2), e2 in engs.items():
+                    for node2, c2, S2, vals2 in e2.calls:
+                        if c2 != f or pi >= len(vals2) or W.resolve(e2.u, f) is not e.u:
+                            continue
+                        if vals2[pi].path is None:
+                            acc = set(uni)
+                            continue
+                        kk, known = _kinds_at(S2, vals2[pi].path, uni)
+                        acc = kk if acc is None else (acc | kk)
+                kinds = set(uni) if acc is None else set(x for x in acc if isinstance(x, str))
+            elif kf is None:
                 kinds = set(uni)
             elif kf[0] == 'in':
                 kinds = set(x for x in kf[1] if isinstance(x, str))
